@@ -462,23 +462,19 @@ func checkC11(c *Check) {
 	if m := p.Meth("flamego", "ComboRoute", "route"); m != nil {
 		key := p.FuncKey(m)
 		added := vField(vParam(m, 0), "added")
-		var lk *ssa.Lookup
-		allInstrs(m, func(in ssa.Instruction) {
-			if l, ok := in.(*ssa.Lookup); ok && added(l.X) && vParam(m, 2)(l.Index) && l.CommaOk {
-				lk = l
-			}
-		})
+		member := p.vMember(added, vParam(m, 2))
+		lk := len(edgesWhere(m, cBool(member), true)) > 0
 		var reg ssa.Instruction
 		allInstrs(m, func(in ssa.Instruction) {
 			if ci, ok := in.(ssa.CallInstruction); ok && callName(ci.Common()) == "dynamic" && vParam(m, 1)(ci.Common().Value) {
 				reg = in
 			}
 		})
-		if lk == nil || reg == nil {
+		if !lk || reg == nil {
 			c.Bad(key+":duplicate-method", p.FuncPos(m), "no lookup of the method in the added set guards the registration")
 		} else {
-			fresh := edgesWhere(m, cBool(vExtract(1, vIs(lk))), false)
-			dup := edgesWhere(m, cBool(vExtract(1, vIs(lk))), true)
+			fresh := edgesWhere(m, cBool(member), false)
+			dup := edgesWhere(m, cBool(member), true)
 			ok, path := guardedBy(m, fresh, isInstr(reg))
 			bad := false
 			for e := range dup {
